@@ -150,7 +150,8 @@ def _var_case(rng, cid):
                 which[n_] = compile_exec.resolved_form(which, n_)
             except absfont.Inexact:
                 pass
-    return {"cid": cid, "var": True, "lib": rng.choice(["ufoLib2", "defcon"]), "flavor": flavor,
+    interp2 = bool(sparse) and flavor == "tt" and rng.random() < 0.4
+    return {"cid": cid, "var": True, "interp2": interp2, "lib": rng.choice(["ufoLib2", "defcon"]), "flavor": flavor,
             "m0": m0, "m1": m1, "sparse": sparse, "skip": skip, "via": "dslib", "names": names}   # (the designspace functions take the list from the designspace lib only, as documented)
 
 
@@ -232,6 +233,30 @@ def _execute_var(case):
             rec["err"] = type(e).__name__ + ": " + str(e)[:160]
             return [rec]
         builds.append(data)
+    if case.get("interp2"):
+        # a second axis whose default is not 0, and a sparse source that states only its Weight: through
+        # compileInterpolatableTTFsFromDS the sparse MASTER itself must hold every remaining glyph that (transitively) uses a
+        # skipped glyph of the sparse layer, drawn as the designspace says
+        def family2(skip_lib):
+            fam = family(skip_lib)
+            fam["axes"].append({"name": "Width", "tag": "wdth", "min": 50, "default": 100, "max": 200})
+            for m in fam["masters"]:
+                if not m.get("layer"):
+                    m["loc"]["Width"] = 100
+            return fam
+
+        ds2 = dsbuild.build_designspace(family2(case["skip"]), lib)
+        try:
+            outs = ufo2ft.compileInterpolatableTTFsFromDS(ds2, useProductionNames=False).sources
+            sp = [s_.font for s_ in outs if s_.layerName][0]
+            _, sp = project.save_reload(sp)
+            rec["sparseHas"] = sp.getGlyphOrder()
+            rec["rS"] = _render(sp)
+        except absfont.Inexact as e:
+            return [{"tid": case["cid"], "skip": True, "why": f"inexact sparse master: {e}"}]
+        except Exception as e:  # noqa
+            rec["err"] = "interp2: " + type(e).__name__ + ": " + str(e)[:160]
+            return [rec]
     f0, f1 = (TTFont(io.BytesIO(d)) for d in builds)
     rec["order0"], rec["order1"] = f0.getGlyphOrder(), f1.getGlyphOrder()
     cm = set()
